@@ -25,24 +25,27 @@ type c10Prog struct {
 }
 
 var c10Files = map[string]string{
-	"attrs.vuego":    `<p :a="a" :b="b" :c="c" :d="d" :e="e" id="s">x</p>`,
-	"style.vuego":    `<p style="color: red; margin: 0; top: 1px" :style="{color: a, fontSize: '3px', left: b, zIndex: c}">x</p><i style="a:1; b:2; c:3; d:4" v-show="f">y</i>`,
-	"loop.vuego":     `<ul><li v-for="(i, v) in items" :data-i="i" :class="{odd: v}">{{ i }}={{ v }}</li></ul><p v-else>none</p>`,
-	"chain.vuego":    `<p v-if="a == 'x'">A</p><p v-else-if="b">B</p><p v-else>C</p>`,
-	"inc.vuego":      `<template include="comp.vuego" :p="a" q="{{ b }}"><b>slot {{ c }}</b></template><template include="comp.vuego" :p="b"></template>`,
-	"comp.vuego":     "---\nfm: FM\n---\n<section :data-p=\"p\"><slot>fallback</slot>{{ p }}/{{ q }}/{{ fm }}</section>",
-	"once.vuego":     `<div v-for="x in items"><i v-once>once</i><b>{{ x }}</b></div>`,
-	"filters.vuego":  `<p>{{ a | upper }} {{ b | default("dflt") }} {{ len(items) }} {{ a | lower | title }}</p>`,
-	"fm.vuego":       "---\ntitle: from-fm\nextra: [1, 2]\n---\n<h1>{{ title }}</h1><p>{{ a }}</p><i v-for=\"x in extra\">{{ x }}</i>",
-	"layouted.vuego": "---\nlayout: main\n---\n<p>{{ a }} in layout</p>",
+	"attrs.vuego":        `<p :a="a" :b="b" :c="c" :d="d" :e="e" id="s">x</p>`,
+	"style.vuego":        `<p style="color: red; margin: 0; top: 1px" :style="{color: a, fontSize: '3px', left: b, zIndex: c}">x</p><i style="a:1; b:2; c:3; d:4" v-show="f">y</i>`,
+	"loop.vuego":         `<ul><li v-for="(i, v) in items" :data-i="i" :class="{odd: v}">{{ i }}={{ v }}</li></ul><p v-else>none</p>`,
+	"chain.vuego":        `<p v-if="a == 'x'">A</p><p v-else-if="b">B</p><p v-else>C</p>`,
+	"inc.vuego":          `<template include="comp.vuego" :p="a" q="{{ b }}"><b>slot {{ c }}</b></template><template include="comp.vuego" :p="b"></template>`,
+	"comp.vuego":         "---\nfm: FM\n---\n<section :data-p=\"p\"><slot>fallback</slot>{{ p }}/{{ q }}/{{ fm }}</section>",
+	"once.vuego":         `<div v-for="x in items"><i v-once>once</i><b>{{ x }}</b></div>`,
+	"filters.vuego":      `<p>{{ a | upper }} {{ b | default("dflt") }} {{ len(items) }} {{ a | lower | title }}</p>`,
+	"fm.vuego":           "---\ntitle: from-fm\nextra: [1, 2]\n---\n<h1>{{ title }}</h1><p>{{ a }}</p><i v-for=\"x in extra\">{{ x }}</i>",
+	"layouted.vuego":     "---\nlayout: main\n---\n<p>{{ a }} in layout</p>",
 	"layouts/main.vuego": `<html><body><div v-html="content"></div><footer>{{ a }}</footer></body></html>`,
-	"fail.vuego":     `<p>{{ a | nosuchfunction }}</p>`,
-	"failinc.vuego":  `<b>x</b><template include="missing.vuego"></template>`,
-	"failreq.vuego":  `<template include="req.vuego"></template>`,
-	"req.vuego":      `<template :required="zz"><i>{{ zz }}</i></template>`,
-	"tpl.vuego":      `<template :n="a"><p>{{ n }}</p></template><p>{{ n }}</p><template v-keep :m="b"><i>{{ m }}</i></template>`,
-	"vhtml.vuego":    `<div v-html="h"></div><p v-text="h"></p><pre v-pre>{{ a }}</pre>`,
-	"map.vuego":      `<i v-for="v in one">{{ v }}</i><p>{{ m.k }} {{ m.l[1] }}</p>`,
+	"fail.vuego":         `<p>{{ a | nosuchfunction }}</p>`,
+	"failinc.vuego":      `<b>x</b><template include="missing.vuego"></template>`,
+	"fmset.vuego":        "---\ncount: 1\nlabel: L\n---\n<template :count=\"count + 1\" :label=\"a\"></template><p>visit {{ count }} {{ label }}</p>",
+	"failmid.vuego":      `<p title="tok={{ a }} exp={{ b | nosuchfunction }}">x</p>`,
+	"failtext.vuego":     `<p>tok={{ a }} and {{ b | nosuchfunction }} tail</p>`,
+	"failreq.vuego":      `<template include="req.vuego"></template>`,
+	"req.vuego":          `<template :required="zz"><i>{{ zz }}</i></template>`,
+	"tpl.vuego":          `<template :n="a"><p>{{ n }}</p></template><p>{{ n }}</p><template v-keep :m="b"><i>{{ m }}</i></template>`,
+	"vhtml.vuego":        `<div v-html="h"></div><p v-text="h"></p><pre v-pre>{{ a }}</pre>`,
+	"map.vuego":          `<i v-for="v in one">{{ v }}</i><p>{{ m.k }} {{ m.l[1] }}</p>`,
 }
 
 func c10Data(variant int) func() map[string]any {
@@ -55,14 +58,17 @@ func c10Data(variant int) func() map[string]any {
 		if variant == 2 {
 			d["a"], d["b"], d["c"] = "SECRET-OF-ANOTHER-RENDER", "bsecret", 0
 		}
+		if variant == 3 {
+			return map[string]any{} // a static page rendered without data
+		}
 		return d
 	}
 }
 
 func c10Progs() []c10Prog {
 	var out []c10Prog
-	for _, f := range []string{"attrs", "style", "loop", "chain", "inc", "once", "filters", "fm", "layouted", "fail", "failinc", "failreq", "tpl", "vhtml", "map"} {
-		for v := 0; v < 3; v++ {
+	for _, f := range []string{"attrs", "style", "loop", "chain", "inc", "once", "filters", "fm", "layouted", "fmset", "fail", "failinc", "failmid", "failtext", "failreq", "tpl", "vhtml", "map"} {
+		for v := 0; v < 4; v++ {
 			out = append(out, c10Prog{fmt.Sprintf("%s/%d", f, v), f + ".vuego", c10Data(v)})
 		}
 	}
@@ -99,7 +105,7 @@ func c10Render(t vuego.Template, p c10Prog, viaVue bool) (string, bool, map[stri
 
 func runC10(r *Run, replay *Case) {
 	progs := c10Progs()
-	r.Res.Rule = "catalogue of 45 programs (15 templates: bound attributes, styles, loops, chains, includes+slots, v-once, filters, front-matter, layouts, failing templates x 3 data variants); " +
+	r.Res.Rule = "catalogue of 72 programs (18 templates: bound attributes, styles, loops, chains, includes+slots, v-once, filters, front-matter, layouts, failing templates x 4 data variants incl. no data at all); " +
 		"every ordered pair on one long-used engine vs a fresh engine, each program repeated 20x (map order), random sequences; caller data and cached DOM snapshotted; non-trivial = every comparison"
 	reps := 20
 	mfs := c10FS()
